@@ -52,15 +52,15 @@ theorem no_failure (v w : V) (steps : List (V → Outcome V)) (h : runPlain v st
   rw [try_commutes, h]; rfl
 
 /-- **Accessors report the single outcome consistently.** -/
-theorem accessors_val (v : V) (nil d : V) (wrapErr : ErrV → V) (mkArr : V → V → V) (k : String) (f : ErrV → V) :
+theorem accessors_val (v : V) (nil d : V) (isNil : V → Bool) (wrapErr : ErrV → V) (mkArr : V → V → V) (k : String) (f : ErrV → V) :
     (E.val v).A nil wrapErr mkArr = mkArr v nil ∧ (E.val v).valOr nil = v ∧ (E.val v).errOr nil wrapErr = nil ∧
-    (E.val v).isVal = true ∧ (E.val v).isErr = false ∧ (E.val v).orElse d = v ∧
+    (E.val v).isVal isNil = !isNil v ∧ (E.val v).isErr = false ∧ (E.val v).orElse d = v ∧
     (E.val v).abandon = .val v ∧ (E.val v).catch k f = .val v := by
   simp [E.A, E.valOr, E.errOr, E.isVal, E.isErr, E.orElse, E.abandon, E.catch]
 
-theorem accessors_err (e : ErrV) (nil d : V) (wrapErr : ErrV → V) (mkArr : V → V → V) (k : String) (f : ErrV → V) :
+theorem accessors_err (e : ErrV) (nil d : V) (isNil : V → Bool) (wrapErr : ErrV → V) (mkArr : V → V → V) (k : String) (f : ErrV → V) :
     (E.err e : E V).A nil wrapErr mkArr = mkArr nil (wrapErr e) ∧ (E.err e : E V).valOr nil = nil ∧
-    (E.err e : E V).errOr nil wrapErr = wrapErr e ∧ (E.err e : E V).isVal = false ∧ (E.err e : E V).isErr = true ∧
+    (E.err e : E V).errOr nil wrapErr = wrapErr e ∧ (E.err e : E V).isVal isNil = false ∧ (E.err e : E V).isErr = true ∧
     (E.err e : E V).orElse d = d ∧ (E.err e : E V).abandon = .err e ∧
     ((E.err e : E V).catch k f = if e.kind = k then .val (f e) else .err e) := by
   simp [E.A, E.valOr, E.errOr, E.isVal, E.isErr, E.orElse, E.abandon, E.catch]
